@@ -79,6 +79,14 @@ theorem raw_sites_enumerated :
         | [st] => reviewedRaw.contains (s.expr, st)
         | _ => false) = true := by decide +kernel
 
+/-- a `{{ line }}` site (raw input inside a `#` comment) only occurs in templates whose loop
+header takes the lines from `str.splitlines()`, which removes every line terminator — so the
+comment cannot be left. -/
+theorem comment_lines_from_splitlines :
+    (sites.filter (fun s => classify s.expr == .commentLine)).all (fun s =>
+      sites.any (fun h => h.template == s.template &&
+        h.expr == "for:lineinfield.docstring.splitlines()")) = true := by decide +kernel
+
 /-- the TypedDict key is interpolated between single quotes and nowhere else -/
 theorem key_site_quoted :
     (sites.filter (fun s => s.expr == "field.key")).all (fun s => s.states == ["sq"]) = true ∧
